@@ -22,7 +22,7 @@ import (
 //	    current member's sync at g succeeds (until the generation changes).
 type coordC14 struct{}
 
-func (coordC14) NeedShadow() bool                                      { return false }
+func (coordC14) NeedShadow() bool                                     { return false }
 func (coordC14) CheckTick(*coordWorld, *coordTick) []xstate.Violation { return nil }
 
 func (coordC14) Check(w *coordWorld, st *coordStep) []xstate.Violation {
